@@ -7,6 +7,7 @@ import (
 	"testing"
 
 	"github.com/HobbyOSs/gosk/verifharness/asm"
+	"github.com/HobbyOSs/gosk/verifharness/coff"
 	"github.com/HobbyOSs/gosk/verifharness/sem"
 	"github.com/HobbyOSs/gosk/verifharness/x86asm"
 	"pgregory.net/rapid"
@@ -31,6 +32,10 @@ type ModeGroup struct {
 
 type BitsCase struct {
 	Groups []ModeGroup `json:"groups"`
+	// FormatAt >= 1: a [FORMAT "WCOFF"] line is written in front of group FormatAt-1 (before its own lines and
+	// its BITS directive); the program bytes are then the .text section of the object. The output format must
+	// not have a say in the encoding mode.
+	FormatAt int `json:"formatat,omitempty"`
 }
 
 func bitsDirective(m int) string {
@@ -65,7 +70,10 @@ func (g *ModeGroup) body() string {
 
 func (c *BitsCase) source() string {
 	var sb strings.Builder
-	for _, g := range c.Groups {
+	for i, g := range c.Groups {
+		if c.FormatAt == i+1 {
+			sb.WriteString("[FORMAT \"WCOFF\"]\n")
+		}
 		for _, l := range g.Lead {
 			sb.WriteString(l + "\n")
 		}
@@ -93,7 +101,10 @@ func checkC17(c BitsCase) Verdict {
 	v := Verdict{Key: src}
 	// baseline: the same program without instructions and data (directives print content-free warnings)
 	var bsb strings.Builder
-	for _, g := range c.Groups {
+	for i, g := range c.Groups {
+		if c.FormatAt == i+1 {
+			bsb.WriteString("[FORMAT \"WCOFF\"]\n")
+		}
 		for _, l := range g.Lead {
 			bsb.WriteString(l + "\n")
 		}
@@ -107,6 +118,15 @@ func checkC17(c BitsCase) Verdict {
 	if asm.Diagnosed(r, base) {
 		v.Skip = "diagnosed: " + asm.DiagClass(r, base)
 		return v
+	}
+	if c.FormatAt > 0 {
+		obj, err := coff.Parse(r.Out)
+		if err != nil || len(obj.Sections) == 0 {
+			v.Skip = "structurally invalid object (C08 decides)"
+			return v
+		}
+		r.Out = obj.Sections[0].Data
+		st.Classes["wcoff"]++
 	}
 	fail := func(kind string, f string, a ...any) Verdict {
 		v.Fail = fmt.Sprintf(f, a...) + fmt.Sprintf("\n--- source ---\n%s--- output ---\n% x", src, head(r.Out, 96))
@@ -284,7 +304,7 @@ func genModeGroup(t *rapid.T, mode, eff int, first bool, used map[string]bool, p
 
 var propC17 = &Prop[BitsCase]{
 	ID:   "C17",
-	Rule: "programs of 1..5 label-free instruction groups (register, immediate and memory-operand forms; one group in three repeats the statement texts of an earlier group), each optionally preceded by a [BITS 16]/[BITS 32] directive (none at all for the first group = default mode; repeated modes and 16->32->16 included) with comments, EQU, GLOBAL/EXTERN, other bracket directives and data lines before and after the directive; oracle (1) metamorphic: out(P) = concatenation of the groups assembled alone under their effective mode, (2) reference: every group decodes under its effective mode (x86asm) to exactly the instructions written (this pins 'no directive = 16-bit'); non-trivial = every group holds an instruction whose encoding differs between the modes; distinct by source text",
+	Rule: "programs of 1..5 label-free instruction groups (register, immediate and memory-operand forms; one group in three repeats the statement texts of an earlier group), each optionally preceded by a [BITS 16]/[BITS 32] directive (none at all for the first group = default mode; repeated modes and 16->32->16 included) with comments, EQU, GLOBAL/EXTERN, other bracket directives and data lines before and after the directive, one program in six with a [FORMAT \"WCOFF\"] line in front of some group (the bytes are then the object's .text); oracle (1) metamorphic: out(P) = concatenation of the groups assembled alone under their effective mode, (2) reference: every group decodes under its effective mode (x86asm) to exactly the instructions written (this pins 'no directive = 16-bit'); non-trivial = every group holds an instruction whose encoding differs between the modes; distinct by source text",
 	Gen: func(t *rapid.T) BitsCase {
 		var c BitsCase
 		used := map[string]bool{}
@@ -301,6 +321,9 @@ var propC17 = &Prop[BitsCase]{
 			g := genModeGroup(t, mode, eff, i == 0, used, c.Groups)
 			g.Tag = i
 			c.Groups = append(c.Groups, g)
+		}
+		if rapid.IntRange(0, 5).Draw(t, "wcoff") == 0 {
+			c.FormatAt = 1 + rapid.IntRange(0, len(c.Groups)-1).Draw(t, "formatat")
 		}
 		return c
 	},
